@@ -22,3 +22,18 @@ Proof.
   split; apply inv2_run; assumption.
 Qed.
 Print Assumptions C20_each_run_keeps_its_guarantees.
+
+(** Non-vacuity: two for_each runs (forward and reverse) on the chain 0 -> 1, polled alternately. *)
+Example C20_example :
+  let ops := [AddFn (mkFn 0 [] []); AddFn (mkFn 1 [] []); AddLogic 0 1] in
+  match build (builder_run ops) with
+  | BOk G _ _ =>
+    let cfA := mk_cfg G false AForEach false false 0 SFinish true [] true in
+    let cfB := mk_cfg G true AForEach false false 0 SFinish true [] true in
+    let evs := [(true, ESettle); (false, ESettle); (false, ECmp 1 true); (true, ECmp 0 true); (true, ESettle);
+                (false, ESettle); (true, ECmp 1 true); (false, ECmp 0 true); (false, ESettle); (true, ESettle)] in
+    starts (trace (fst (run2 cfA cfB evs))) = [0; 1] /\ starts (trace (snd (run2 cfA cfB evs))) = [1; 0] /\
+    is_none (result (fst (run2 cfA cfB evs))) = false /\ is_none (result (snd (run2 cfA cfB evs))) = false
+  | _ => False
+  end.
+Proof. vm_compute. repeat split; reflexivity. Qed.
